@@ -210,7 +210,7 @@ impl Conformance {
 }
 
 pub fn run(ws: &Ws, exec: &Executor, count: u64, seed: u64, workers: usize) -> Result<Conformance, String> {
-    let real = build_real(ws)?;
+    let real = stage_binary(&build_real(ws)?, "real")?;
     let fakegen = fakegen_path(ws);
     if !fakegen.exists() {
         return Err(format!("{} is missing", fakegen.display()));
